@@ -305,7 +305,10 @@ func runMaxSatCase(o *Oracle, d json.RawMessage, oc *Outcome) {
 		pb := maxsat.New(cs...)
 		maxsat.VerifSetNewHook(nil)
 		encodingMirror(o, oc, c.Constrs, enc)
+		an := sampleAnalyses(pb.Solver(), 2, 40, 4)
 		model, cost := pb.Solve()
+		pb.Solver().VerifSetAnalyzeHook(nil)
+		analysisMirror(o, oc, *an, "maxsat.Problem.Solve")
 		entry := "maxsat.Problem.Solve"
 		// the caller's constraints are his: building and solving must not change them, and the
 		// same values handed to New again must give the same answer (judged below on the 2nd run)
